@@ -1,5 +1,6 @@
 import DEngine.Lemmas.ClientQ
 import DEngine.Lemmas.ClientQOut
+import DEngine.Lemmas.ClientQCount
 /-!
 # C29 — Each write gets one correct response
 
@@ -122,7 +123,7 @@ theorem noSucc_stepDown (s : St) : NoSucc (stepDown s).2 := by
   all_goals first
     | (rcases h with ⟨_, _, rfl⟩; simp [Resp.grp])
     | (rcases h with ⟨_, _, _, _, rfl⟩; simp [Resp.grp])
-    | (rcases h with ⟨e, _, he⟩; cases ha : e.2.2 <;> simp [ha] at he; subst he; simp [Resp.grp])
+    | (rcases h with ⟨e, _, he⟩; cases ha : e.2.2 <;> simp [joinAnswer, ha] at he; subst he; simp [Resp.grp])
 
 /-- **No event other than an apply completion emits a success-class answer** (in any state satisfying the
     invariant, hence in every reachable state). -/
@@ -207,6 +208,50 @@ theorem success_after_own_apply (c : Cfg) (pre : Nat) (evs : List Ev) (e : Ev) (
       i ≤ (step c s e).1.commit ∧ s.applied < i ∧ i ≤ (step c s e).1.applied ∧
       (i, r == .ok) ∈ (applyRange s.log s.kv s.applied ((step c s e).1.applied - s.applied)).2 :=
   fun hx hr => success_after_own_apply_step c (inv_reachable c pre evs) e id r hx hr
+
+/-! ### exactly one response -/
+
+/-- **C29 `one_response_per_write` (full strength; holds for every kind of request).** For every configuration,
+    pre-existing log length and event sequence, and every natural number `a`: the number of answers `a` has received
+    over the whole history plus the number of queue positions (all nine queues) that hold `a` at the end is exactly 1
+    if `a` has been issued as a request id, and 0 otherwise. So a request is never answered twice, never answered
+    while still queued, never queued twice, and never lost. (Induction over all event sequences; conservation of
+    ids per event — `cons_step` — uses the ownership invariant for the apply path.) -/
+theorem one_response_per_write (c : Cfg) (pre : Nat) (evs : List Ev) (a : Nat) :
+    (run c (init c pre) evs).1.pending.count a + (answeredIds (run c (init c pre) evs).2).count a =
+      if a < (run c (init c pre) evs).1.nextId then 1 else 0 := by
+  have := (acc_init c pre).run c evs (inv_init c pre) a
+  simpa [St.pc] using this
+
+/-- no request is answered twice -/
+theorem answered_at_most_once (c : Cfg) (pre : Nat) (evs : List Ev) :
+    (answeredIds (run c (init c pre) evs).2).Nodup := by
+  rw [List.nodup_iff_count]
+  intro a
+  have := one_response_per_write c pre evs a
+  split at this <;> omega
+
+/-- an answered request is in no queue any more, and a queued one has not been answered -/
+theorem answered_not_pending (c : Cfg) (pre : Nat) (evs : List Ev) (a : Nat)
+    (h : a ∈ answeredIds (run c (init c pre) evs).2) : a ∉ (run c (init c pre) evs).1.pending := by
+  intro hp
+  have := one_response_per_write c pre evs a
+  have h1 : 0 < (answeredIds (run c (init c pre) evs).2).count a := List.count_pos_iff.mpr h
+  have h2 : 0 < (run c (init c pre) evs).1.pending.count a := List.count_pos_iff.mpr hp
+  split at this <;> omega
+
+/-- every issued request is queued or answered: none is lost -/
+theorem issued_is_pending_or_answered (c : Cfg) (pre : Nat) (evs : List Ev) (a : Nat)
+    (h : a < (run c (init c pre) evs).1.nextId) :
+    a ∈ (run c (init c pre) evs).1.pending ∨ a ∈ answeredIds (run c (init c pre) evs).2 := by
+  have := one_response_per_write c pre evs a
+  rw [if_pos h] at this
+  by_cases hp : a ∈ (run c (init c pre) evs).1.pending
+  · exact Or.inl hp
+  · right
+    have : (run c (init c pre) evs).1.pending.count a = 0 := List.count_eq_zero.mpr hp
+    apply List.count_pos_iff.mp
+    omega
 
 /-! Non-vacuity: a history in which a batch of three writes (put, CAS that succeeds, CAS that fails) is
     answered, each answer for the request's own index. -/
